@@ -135,7 +135,7 @@ func RandDocKey(r *fw.Rand, id string) map[string]interface{} {
 	return DocKey(r, id, typ, RandPurposes(r, typ), material)
 }
 
-var svcTypes = []string{"LinkedDomains", "DIDCommMessaging", "hub", "CredentialRepository", "x"}
+var svcTypes = []string{"LinkedDomains", "DIDCommMessaging", "hub", "CredentialRepository", "x", "ThirtyCharacterLongServiceType"}
 
 // RandService draws a valid service.
 func RandService(r *fw.Rand, id string) map[string]interface{} {
@@ -160,8 +160,8 @@ func RandService(r *fw.Rand, id string) map[string]interface{} {
 }
 
 var (
-	KeyIDPool = []string{"key1", "key2", "key-3", "k_4", "K5", "signing"}
-	SvcIDPool = []string{"svc1", "svc2", "hub-3", "s_4"}
+	KeyIDPool = []string{"key1", "key2", "key-3", "k_4", "K5", "signing", "k", strings.Repeat("Kk-_0", 10)}           // incl. lengths 1 and 50
+	SvcIDPool = []string{"svc1", "svc2", "hub-3", "s_4", "s", strings.Repeat("S9_-s", 10)} // incl. lengths 1 and 50
 	URIPool   = []string{"https://alice.example.com", "did:example:alice", "urn:uuid:6d1d6e4c", "https://a.example/path?q=1", "http://blog.example.org/"}
 )
 
